@@ -16,6 +16,7 @@ theorem scatter_single_eq_spec (f : α → γ) (xs : List α) (arrival : List (T
     (h : arrival.Perm ((scatterToks xs).map (fun a => (a.1, f a.2)))) :
     sfScatter1 xs arrival = xs.map f := by
   unfold sfScatter1 emptyScatterFlat
+  simp only [emptyTriggered_eq]
   cases xs with
   | nil => simp
   | cons x r =>
@@ -34,6 +35,7 @@ theorem scatter_dot_eq_spec_partial (f : α → β → γ) (xs : List α) (ys : 
     (h : arrival.Perm (dotToks f xs ys)) (hne : xs.length = ys.length ∨ (xs ≠ [] ∧ ys ≠ [])) :
     sfDot xs ys arrival = specDot f xs ys := by
   unfold sfDot specDot emptyScatterFlat
+  simp only [emptyTriggered_eq]
   by_cases hz : xs.length = 0 ∨ ys.length = 0
   · have hboth : xs = [] ∧ ys = [] := by
       rcases hne with e | ⟨h1, h2⟩
@@ -63,12 +65,13 @@ theorem scatter_dot_full_false :
         sfDot xs ys arrival = specDot (· + ·) xs ys) := by
   intro h
   have := h [] [1] [] (by simp [dotToks, scatterToks, scatterFrom])
-  simp [sfDot, specDot, emptyScatterFlat] at this
+  simp [sfDot, specDot, emptyScatterFlat, emptyTriggered_eq] at this
 
 /-- **flat_crossproduct is row-major** for every pair of inputs (empty ones included) and every arrival order -/
 theorem scatter_flat_eq_spec (f : α → β → γ) (xs : List α) (ys : List β) (arrival : List (Tok γ))
     (h : arrival.Perm (cartToks f xs ys)) : sfFlat xs ys arrival = specFlat f xs ys := by
   unfold sfFlat emptyScatterFlat
+  simp only [emptyTriggered_eq]
   by_cases hz : ([xs.length, ys.length].any (· == 0)) = true
   · simp only [hz, if_true]
     simp only [List.any_cons, List.any_nil, Bool.or_false, Bool.or_eq_true, beq_iff_eq] at hz
@@ -90,6 +93,7 @@ theorem scatter_nested_eq_spec_partial (f : α → β → γ) (xs : List α) (ys
     (rowsArrival : List (Tok (List γ))) (h : rowsArrival.Perm (rowsCanon f xs ys))
     (hx : xs ≠ []) (hy : ys ≠ []) : sfNested xs ys rowsArrival = specNested f xs ys := by
   unfold sfNested emptyScatterNested
+  simp only [emptyTriggered_eq]
   have h1 : xs.length ≠ 0 := fun e => hx (List.length_eq_zero_iff.mp e)
   have h2 : ys.length ≠ 0 := fun e => hy (List.length_eq_zero_iff.mp e)
   have : ([xs.length, ys.length].any (· == 0)) = false := by simp [h1, h2]
@@ -101,17 +105,35 @@ theorem scatter_nested_eq_spec_partial (f : α → β → γ) (xs : List α) (ys
 theorem scatter_nested_empty_false :
     sfNested [1, 2, 3] ([] : List Nat) ([] : List (Tok (List Nat))) ≠ specNested (· + ·) [1, 2, 3] [] ∧
     sfNested ([] : List Nat) [1, 2, 3] ([] : List (Tok (List Nat))) ≠ specNested (· + ·) [] [1, 2, 3] := by
-  constructor <;> simp [sfNested, emptyScatterNested, specNested]
+  constructor <;> decide
 
 /-- `empty_scatter`: dot / flat short cut agrees with the standard when an input is empty -/
 theorem empty_scatter_eq_spec (f : α → β → γ) (xs : List α) (ys : List β) (h : xs = [] ∨ ys = []) :
     (emptyScatterFlat [xs.length, ys.length] : Option (List γ)) = some (specFlat f xs ys) := by
-  rcases h with rfl | rfl <;> simp [emptyScatterFlat, specFlat]
+  rcases h with rfl | rfl <;> simp [emptyScatterFlat, emptyTriggered_eq, specFlat]
 
 /-- linkMerge: merge_nested over pairwise different sources is the list of the sources -/
 theorem link_merge_nested_eq_spec_partial (srcs : List (String × α)) (h : (srcs.map (·.1)).Nodup) :
     sfMergeNested srcs = specMergeNested (srcs.map (·.2)) := by
   simp [sfMergeNested, specMergeNested, dedupKeys_nodup srcs h]
+
+/-- `ListMergeCombinator.combine` does not depend on the order in which the source tokens arrive: whatever the
+arrival order, the merged list follows `input_names` -/
+theorem link_merge_any_arrival (names : List String) (vals : List α) (arrivals : List (String × α))
+    (hlen : names.length = vals.length) (hn : names.Nodup) (hp : arrivals.Perm (names.zip vals)) :
+    collectByName arrivals names = vals.map some := by
+  unfold collectByName
+  have hk : (arrivals.map (·.1)).Nodup := by
+    have : (arrivals.map (·.1)).Perm ((names.zip vals).map (·.1)) := hp.map _
+    rw [this.nodup_iff]
+    have hz : (names.zip vals).map (·.1) = names := by
+      rw [List.map_fst_zip]; omega
+    rw [hz]; exact hn
+  have : ∀ n, arrivals.lookup n = (names.zip vals).lookup n := fun n => lookup_perm hp hk n
+  simp only [this]
+  exact lookup_zip_self names vals hlen hn
+
+example : collectByName [("c", 3), ("a", 1), ("b", 2)] ["a", "b", "c"] = [some 1, some 2, some 3] := by decide
 
 /-- the full merge statement is **false of the code** (DESIGN §6 #20): a source listed twice is kept once -/
 theorem link_merge_duplicate_false :
@@ -141,14 +163,18 @@ theorem link_merge_flattened_eq_spec_partial (srcs : List (String × TSrc α)) (
   | many elems =>
     rw [hq] at this
     simp only [untag]
-    rw [sortByLast_sorted elems this]
+    rw [flattenSort_sorted elems this]
 
 /-- the full merge_flattened statement is **false of the code**: the elements of an array produced by a
 flat_crossproduct scatter carry tags `i.j`; `_flatten_token_list` re-sorts them by the last component only -/
 theorem link_merge_flattened_cross_false :
     sfMergeFlattened [("s", TSrc.many [([0, 0], 10), ([0, 1], 11), ([1, 0], 20), ([1, 1], 21)])] ≠
       specMergeFlattened [Src.many [10, 11, 20, 21]] := by
-  simp [sfMergeFlattened, specMergeFlattened, dedupKeys, sortByLast, insertByLast]
+  decide
+
+/-- the guards regenerated from the source are the ones modelled -/
+theorem guards_as_modelled : Gen.CwlOpsGen.emptyGuard = .allNonEmpty ∧ Gen.CwlOpsGen.nestedEmpty = .onePerInput ∧
+    Gen.CwlOpsGen.flattenKey = .lastTagComponent := by decide
 
 /-- pickValue, errors included -/
 theorem pick_value_eq_spec (vs : List (Option α)) :
